@@ -40,6 +40,7 @@ func isBatchWrite(c *ssa.CallCommon) bool {
 
 func checkC14(c *Ctx) {
 	l := c.L
+	checkImportRootKey(c, "OWN-version-probe-key")
 	checkFailedWriteRetainsBatch(c)
 	checkMemoAfterIteratorVerdict(c, "ORDER-memo-after-verdict")
 	checkVersionProbeRemoved(c, "PASS-version-probe-removed")
@@ -762,5 +763,62 @@ func checkInitialVersionConsumed(c *Ctx, rule string) {
 	}
 	if n == 0 {
 		c.anchorMissing(rule, "no consumption of initialVersionSet found")
+	}
+}
+
+// checkImportRootKey (C14): the key (v,1) is what the version search probes
+// for "version v exists".  The importer gives the imported root the nonce 1
+// under the root's OWN version; when the root is older than the imported
+// version (the exported version was saved without changes) this creates the
+// probe key of a version that was never imported, and the first-version search
+// lands on it.  The nonce-1 assignment must therefore be confined to the edge
+// on which the root's version is the imported version.
+func checkImportRootKey(c *Ctx, rule string) {
+	l := c.L
+	c.rule(rule, "the importer creates the version-probe key (v,1) only for the imported version", 1)
+	ic := l.Func("", "*Importer.Commit")
+	fNonce := l.Field("", "NodeKey", "nonce")
+	fIVer := l.Field("", "Importer", "version")
+	fKVer := l.Field("", "NodeKey", "version")
+	if ic == nil || fNonce == nil || fIVer == nil || fKVer == nil {
+		c.anchorMissing(rule, "Importer.Commit / NodeKey.nonce / Importer.version")
+		return
+	}
+	// guards comparing the root's key version with the imported version; pass = equal (not older)
+	var same []guard
+	for _, b := range ic.Blocks {
+		iff := ifOf(b)
+		if iff == nil {
+			continue
+		}
+		bo, ok := stripTrivial(iff.Cond).(*ssa.BinOp)
+		if !ok {
+			continue
+		}
+		x, y := stripTrivial(bo.X), stripTrivial(bo.Y)
+		if !(isLoadOfField(fKVer)(x) && isLoadOfField(fIVer)(y)) && !(isLoadOfField(fKVer)(y) && isLoadOfField(fIVer)(x)) {
+			continue
+		}
+		switch bo.Op {
+		case token.EQL:
+			same = append(same, guard{iff, 0})
+		case token.NEQ, token.LSS, token.GTR:
+			same = append(same, guard{iff, 1})
+		case token.GEQ, token.LEQ:
+			same = append(same, guard{iff, 0})
+		}
+	}
+	n := 0
+	for _, st := range storesToField(ic, fNonce) {
+		k, isC := constInt(st.Val)
+		if !isC || k != 1 {
+			continue
+		}
+		n++
+		c.decide(rule, "Importer.Commit keys the root (root version, 1)", l.ipos(st), guardsEffect(same, st), "only on the edge where the root's version is the imported version",
+			"the imported root is stored under (its own version, 1) also when it is older than the imported version: that key is the version-search probe of a version that was never imported — AvailableVersions / VersionExists report the phantom versions from the root's version up to the imported one (and LoadVersion refuses the store when the root's version lies below the configured initial version)")
+	}
+	if n == 0 {
+		c.anchorMissing(rule, "no nonce-1 assignment in Importer.Commit")
 	}
 }
